@@ -165,8 +165,12 @@ def expand (term : Term) (n : Nat) : Term × Nat :=
   | .ok r => r
   | .error _ => (term, n)
 
-/-- dcg.go Phrase: the goal phrase/3 hands to Call, or the error it raises -/
-def phraseGoal (grBody s0 s : Term) (n : Nat) : M (Term × Nat) := dcgBody grBody s0 s n
+/-- dcg.go Phrase: the goal phrase/3 hands to Call, or the error it raises (an unbound body is an
+    instantiation error: its translation phrase(V, S0, S) would call Phrase again, forever) -/
+def phraseGoal (grBody s0 s : Term) (n : Nat) : M (Term × Nat) :=
+  match grBody with
+  | .var _ => .error (.exc instErr)
+  | grBody => dcgBody grBody s0 s n
 
 /-! ### iterator.go as used by compile (clause.go) -/
 
